@@ -320,7 +320,7 @@ def run_property(pid, obligations, tier, meta):
     known = load_known()
     violations = []; known_hits = []; incomplete = []; errors = []; unconfirmed = []
     try:
-        with ThreadPoolExecutor(max(1, min(NCPU, len(obligations)))) as ex:
+        with ThreadPoolExecutor(max(1, min(meta.get('jobs', NCPU), NCPU, len(obligations)))) as ex:
             results = list(ex.map(lambda ob: solve(ctx, ob, tier), obligations))
         byid = {ob.id: ob for ob in obligations}
         for r in results:
